@@ -60,6 +60,8 @@ func hang(args []string) {
 		switch args[i] {
 		case "--ignore-int":
 			signal.Ignore(syscall.SIGINT)
+		case "--ignore-term":
+			signal.Ignore(syscall.SIGTERM)
 		case "--reset-int":
 			// a background child of a non-interactive shell inherits SIGINT ignored; restore the default action
 			signal.Reset(syscall.SIGINT)
